@@ -7,6 +7,9 @@ func init() {
 			ruleEmitIDs(c, "C13.1")
 			ruleSettingsEmit(c, "C13.2")
 			ruleEnvelopeShape(c, "C13.3")
+			ruleChunkAccounting(c, "C13.3b")
+			ruleReserveBeforeSend(c, "C13.3c")
+			ruleConstants(c, "C13.3d")
 			ruleContiguity(c, "C13.4")
 			ruleHeadersOnce(c, "C13.5")
 			ruleHeadersBeforeData(c, "C13.5b")
